@@ -94,3 +94,69 @@ def to_shorthand(rng, schema, p=0.5, allow_known_findings=False):
                 applied.append(('space', r.replace('_', ' '), where))
     each_rule_set(s, visit)
     return s, applied
+
+
+# --------------------------------------------------------------------------- references (C14)
+
+def to_references(rng, schema, p=0.5):
+    """replace random non-empty rule sets / sub-schemas by registry references.
+    returns (schema_with_refs, rules_sets: name -> definition, schemas: name -> definition, applied)"""
+    s = copy.deepcopy(schema)
+    rules_sets, sub_schemas, applied = {}, {}, []
+    counter = [0]
+
+    def new_name(prefix):
+        counter[0] += 1
+        return '%s%d' % (prefix, counter[0])
+
+    def ref_rules(d, where):
+        """a rule set -> name in the rules set registry (chains with small probability)"""
+        name = new_name('rs')
+        rules_sets[name] = d
+        applied.append(('rules', where))
+        return name
+
+    def walk_rules(rules, where):
+        # first the nested positions (bottom-up), then possibly this rule set itself (done by the caller)
+        sub = rules.get('schema')
+        if isinstance(sub, dict) and sub:
+            if _is_rule_set(sub) and not _looks_like_field_mapping(sub):
+                walk_rules(sub, 'list-schema')
+                if rng.random() < p:
+                    rules['schema'] = ref_rules(sub, 'list-schema')
+            elif not _is_rule_set(sub):
+                for f in list(sub):
+                    if isinstance(sub[f], dict):
+                        walk_rules(sub[f], 'field')
+                        if sub[f] and rng.random() < p * 0.6:
+                            sub[f] = ref_rules(sub[f], 'field')
+                if rng.random() < p:
+                    name = new_name('sc')
+                    sub_schemas[name] = sub
+                    rules['schema'] = name
+                    applied.append(('schema', where))
+        for r in ('keysrules', 'valuesrules', 'allow_unknown'):
+            if isinstance(rules.get(r), dict) and rules[r]:
+                walk_rules(rules[r], r)
+                if rng.random() < p:
+                    rules[r] = ref_rules(rules[r], r)
+        if isinstance(rules.get('items'), list):
+            for i, d in enumerate(rules['items']):
+                if isinstance(d, dict) and d:
+                    walk_rules(d, 'items')
+                    if rng.random() < p:
+                        rules['items'][i] = ref_rules(d, 'items')
+        for op in OPS:
+            if isinstance(rules.get(op), list):
+                for d in rules[op]:
+                    if isinstance(d, dict):
+                        walk_rules(d, 'of')       # definitions themselves cannot be references
+
+    for f in list(s):
+        if isinstance(s[f], dict):
+            walk_rules(s[f], 'field')
+            if s[f] and rng.random() < p * 0.6:
+                s[f] = ref_rules(s[f], 'field')
+    # chains: a registry entry that is itself only a reference is not supported for rule sets
+    # (a rule set must be a mapping); chains arise through nested references above
+    return s, rules_sets, sub_schemas, applied
